@@ -723,25 +723,31 @@ func c08Writers(c *core.Ctx) {
 		c.Und("R4/writers", token.NoPos, "UNRESOLVED result types")
 		return
 	}
+	// three queries: the first with two named targets in every bin, the second with none in any bin, the third with one
+	// in two bins - a row is built from its own query's bins only
 	mk := func() eval.Value {
-		res := absValue(resT, "r", eval.K(0)).(*eval.StructVal)
-		res.F["qname"] = eval.S("Q")
-		for _, b := range binNames {
-			sub := res.F[b].(*eval.StructVal)
-			var es []eval.Value
-			for k := 0; k < 2; k++ {
-				r := absValue(rsT, "x", eval.K(0)).(*eval.StructVal)
-				r.F["tname"] = eval.S(fmt.Sprintf("%s%d", b, k))
-				r.F["distance"] = eval.Sym(fmt.Sprintf("d_%s%d", b, k))
-				es = append(es, r)
+		var all []eval.Value
+		for qi, per := range []map[string]int{{"same": 2, "up": 2, "down": 2, "side": 2}, {}, {"up": 1, "side": 1}} {
+			res := absValue(resT, "r", eval.K(0)).(*eval.StructVal)
+			res.F["qname"] = eval.S([]string{"Q", "Q2", "Q3"}[qi])
+			for _, b := range binNames {
+				sub := res.F[b].(*eval.StructVal)
+				var es []eval.Value
+				for k := 0; k < per[b]; k++ {
+					r := absValue(rsT, "x", eval.K(0)).(*eval.StructVal)
+					r.F["tname"] = eval.S(fmt.Sprintf("%s%d%s", b, k, []string{"", "", "q3"}[qi]))
+					r.F["distance"] = eval.Sym(fmt.Sprintf("d_%s%d%s", b, k, []string{"", "", "q3"}[qi]))
+					es = append(es, r)
+				}
+				sub.F["catchment"] = eval.NewSlice(es...)
 			}
-			sub.F["catchment"] = eval.NewSlice(es...)
+			all = append(all, res)
 		}
-		return eval.NewSlice(res)
+		return eval.NewSlice(all...)
 	}
 	for _, w := range []struct{ name, want string }{
-		{"writeUpDownCatchment", "query,closestsame,closestup,closestdown,closestside\nQ,same0;same1,up0;up1,down0;down1,side0;side1\n"},
-		{"writeUpdownTable", "query,direction,distance,target\nQ,same,{d_same0},same0\nQ,same,{d_same1},same1\nQ,up,{d_up0},up0\nQ,up,{d_up1},up1\nQ,down,{d_down0},down0\nQ,down,{d_down1},down1\nQ,side,{d_side0},side0\nQ,side,{d_side1},side1\n"},
+		{"writeUpDownCatchment", "query,closestsame,closestup,closestdown,closestside\nQ,same0;same1,up0;up1,down0;down1,side0;side1\nQ2,,,,\nQ3,,up0q3,,side0q3\n"},
+		{"writeUpdownTable", "query,direction,distance,target\nQ,same,{d_same0},same0\nQ,same,{d_same1},same1\nQ,up,{d_up0},up0\nQ,up,{d_up1},up1\nQ,down,{d_down0},down0\nQ,down,{d_down1},down1\nQ,side,{d_side0},side0\nQ,side,{d_side1},side1\nQ3,up,{d_up0q3},up0q3\nQ3,side,{d_side0q3},side0q3\n"},
 	} {
 		fn := c.LookupFunc("pkg/updown", w.name)
 		if fn == nil {
